@@ -19,7 +19,8 @@ def run_mtest(builddir: str, argv: T.List[str], simparams: T.Dict[str, T.Any],
     from mesonbuild import mtest
 
     def script_for(args: T.Sequence[str], env: T.Dict[str, str]) -> T.Tuple[T.Any, T.Dict[str, T.Any]]:
-        tid = args[-1] if args else '?'
+        rest = [a for a in args if not a.startswith('--gtest_output=')]     # (appended by meson for protocol: 'gtest')
+        tid = rest[-1] if rest else '?'
         it = int(env.get('MESON_TEST_ITERATION', '1'))
         sc = scripts.get(tid)
         if sc is None:
